@@ -97,6 +97,13 @@ func c07Pairs(tier string) []c07Pair {
 			add("negation", neg[i], neg[j])
 		}
 	}
+	// ordering comparisons and their bracket-negated / complementary forms
+	negOrd := []string{"F.I < 2", "!(F.I < 2)", "F.I >= 2", "!(F.I >= 2)", "F.I > 1", "!(F.I > 1)", "F.I <= 1", "!(F.I <= 1)", "!(!(F.I < 2))"}
+	for i := range negOrd {
+		for j := i + 1; j < len(negOrd); j++ {
+			add("negation-ordering", negOrd[i], negOrd[j])
+		}
+	}
 	// operators: every substitution in `F.I op F.I2` (numeric result) / comparison / logic
 	arith := []string{"*", "/", "%", "&", "+", "-", "|"}
 	for i := range arith {
